@@ -679,6 +679,10 @@ func (d *Decoder) processPropertyElt(ectx evaluationContext, startElement xml.St
 					case internal.Local_Datatype_Syntax:
 						explicitDatatype = true
 						lit.Datatype = ectx.ResolveIRI(attr.Value)
+
+						if lit.Datatype == rdfiri.LangString_Datatype || lit.Datatype == "http://www.w3.org/1999/02/22-rdf-syntax-ns#dirLangString" {
+							return d.newTokenAttrError(errors.New("a literal of a language-tagged datatype requires a language tag"), attr)
+						}
 					}
 				}
 
